@@ -180,8 +180,9 @@ pub fn emit(fields: &[Field], desc: &MessageDescriptor, ch: &mut Choices, style:
     let mut i = 0;
     while i < fields.len() {
         let f = &fields[i];
-        let fd = desc.get_field(f.num).unwrap();
-        let scalar_list = fd.is_list() && is_scalar(&fd.kind());
+        // mutated trees may contain fields the schema does not know
+        let scalar_list = desc.get_field(f.num).is_some_and(|fd| fd.is_list() && is_scalar(&fd.kind()))
+            && matches!(f.val, Val::Varint(_) | Val::I64(_) | Val::I32(_));
         if scalar_list && style.repack {
             // all consecutive and later occurrences are handled as they come; chunk greedily
             let mut j = i;
